@@ -59,6 +59,10 @@ EtSum(c) == LET RECURSIVE f(_)
             IN  f(Len(c.intervals))
 EtCount(c) == SumSeq([q \in 1..Len(c.intervals) |-> c.intervals[q][2] - c.intervals[q][1]])
 
+(* curvature x transmissivity on step k (mm/d, fixed point): T_min when the curve lies below the    *)
+(* conductivity knots; recorded per step when T varies with the level (PEATCLSM)                    *)
+ExtraAt(c, k) == IF "extras" \in DOMAIN c THEN c.extras[k] ELSE c.extra
+
 JudgeRecession(c) ==
     LET n == Len(c.rows) IN
     /\ Chk(n = Len(c.view) /\ \A k \in 1..n : c.rows[k][1] = c.view[n + 1 - k][1], c,
@@ -73,7 +77,7 @@ JudgeRecession(c) ==
            "C18 the mean of the simulated curve is not the mean of the measured curve", 0)
     \* used[k] * EtUnit * count = 24 * sum * KU + extra * EtUnit * count   (EtUnit: ET integers per mm/h)
     /\ \A k \in 1..Len(c.used) :
-         Chk(AbsV((c.used[k] - c.extra) * c.EtUnit * EtCount(c) - 24 * EtSum(c) * c.KU)
+         Chk(AbsV((c.used[k] - ExtraAt(c, k)) * c.EtUnit * EtCount(c) - 24 * EtSum(c) * c.KU)
                 <= c.tolU * c.EtUnit * EtCount(c), c,
              "C18 the ET used is not the time-average over all time steps of the recession intervals (water balance)", k)
 
